@@ -219,6 +219,52 @@ fn cells(ctx: &Ctx) -> Vec<Cell> {
     v
 }
 
+/// the small cell set used for the history (ordered pair) exploration
+fn pair_cells() -> Vec<Cell> {
+    let mut v = vec![];
+    for client in 0..2 {
+        for ignore in [0usize, 2] {
+            for root in [0usize, 1] {
+                for cert in [0usize, 3] {
+                    v.push(Cell { client, ignore, root, cert, proto: 0 });
+                }
+            }
+        }
+    }
+    v
+}
+
+fn stats_to_json(st: &Stats) -> Json {
+    json!({
+        "evaluations": st.evaluations, "traces": st.traces, "transitions": st.transitions, "states": st.states.len() as u64 + st.states_extra,
+        "outcomes": st.outcomes, "samples": st.samples,
+        "violations": st.violations.iter().map(|v| json!({"class": v.class, "detail": v.detail, "case": v.case})).collect::<Vec<_>>(),
+    })
+}
+
+fn stats_from_json(j: &Json) -> Stats {
+    let mut out = Stats::new();
+    out.evaluations = j["evaluations"].as_u64().unwrap_or(0);
+    out.traces = j["traces"].as_u64().unwrap_or(0);
+    out.transitions = j["transitions"].as_u64().unwrap_or(0);
+    out.states_extra = j["states"].as_u64().unwrap_or(0);
+    out.nontrivial_extra = j["states"].as_u64().unwrap_or(0);
+    if let Some(o) = j["outcomes"].as_object() {
+        for (k, v) in o {
+            out.outcomes.insert(k.clone(), v.as_u64().unwrap_or(0));
+        }
+    }
+    if let Some(s) = j["samples"].as_array() {
+        out.samples = s.clone();
+    }
+    if let Some(vs) = j["violations"].as_array() {
+        for v in vs {
+            out.violate(v["class"].as_str().unwrap_or(""), v["detail"].as_str().unwrap_or(""), v["case"].clone());
+        }
+    }
+    out
+}
+
 fn run_half(ctx: &Ctx) -> Stats {
     let pki = Pki::new();
     let cs = cells(ctx);
@@ -227,26 +273,73 @@ fn run_half(ctx: &Ctx) -> Stats {
     for p in par_range(threads, cs.len() as u64, 1, || (Stats::new(), runtime()), |acc, i| run_cell(&cs[i as usize], &pki, &acc.1, &mut acc.0)) {
         total.merge(p.0);
     }
+    // history: every ORDERED pair of the small cell set (same client kind), each pair in a fresh process, so
+    // that process-wide state left behind by the first configuration (caches, statics) is exercised
+    // deterministically instead of depending on the thread schedule of the matrix above
+    let pc = pair_cells();
+    let mut pairs: Vec<(usize, usize)> = vec![];
+    for a in 0..pc.len() {
+        for b in 0..pc.len() {
+            if pc[a].client == pc[b].client {
+                pairs.push((a, b));
+            }
+        }
+    }
+    let exe = std::env::current_exe().unwrap();
+    for p in par_range(ctx.threads, pairs.len() as u64, 1, Stats::new, |st, i| {
+        let (a, b) = pairs[i as usize];
+        let out = std::process::Command::new(&exe).arg("C12").arg("--pair").arg(a.to_string()).arg(b.to_string()).output();
+        let text = out.map(|o| String::from_utf8_lossy(&o.stdout).to_string()).unwrap_or_default();
+        match text.lines().find(|l| l.starts_with("PAIR-REPORT ")) {
+            Some(line) => {
+                let j: Json = serde_json::from_str(&line["PAIR-REPORT ".len()..]).unwrap_or(Json::Null);
+                st.merge(stats_from_json(&j));
+            }
+            None => {
+                eprintln!("MACHINERY-ERROR pair process ({}, {}) produced no report", a, b);
+                std::process::exit(2);
+            }
+        }
+    }) {
+        total.merge(p);
+    }
     total
 }
 
 pub fn run(ctx: &Ctx) -> ! {
     crate::adapter::silence_panics();
+    // pair mode: configuration A, then configuration B, sequentially in THIS fresh process
+    if let Some(i) = ctx.extra.iter().position(|a| a == "--pair") {
+        let pc = pair_cells();
+        let a: usize = ctx.extra[i + 1].parse().unwrap();
+        let b: usize = ctx.extra[i + 2].parse().unwrap();
+        let pki = Pki::new();
+        let rt = runtime();
+        let mut st = Stats::new();
+        run_cell(&pc[a], &pki, &rt, &mut st);
+        let before = st.violations.len();
+        run_cell(&pc[b], &pki, &rt, &mut st);
+        // violations of the second configuration are history effects: mark them
+        for v in st.violations.iter_mut().skip(before) {
+            v.class = format!("after-another-client:{}", v.class);
+            v.detail = format!("after {} in the same process: {}", pc[a].to_json(), v.detail);
+        }
+        for (k, n) in std::mem::take(&mut st.outcomes) {
+            st.outcomes.insert(format!("pair:{}", k), n);
+        }
+        println!("PAIR-REPORT {}", stats_to_json(&st));
+        std::process::exit(0);
+    }
     // half mode: run this backend's cells, print a JSON report, exit
     if ctx.extra.iter().any(|a| a == "--half") {
         let st = run_half(ctx);
-        let out = json!({
-            "evaluations": st.evaluations, "traces": st.traces, "transitions": st.transitions, "states": st.states.len(),
-            "outcomes": st.outcomes, "samples": st.samples,
-            "violations": st.violations.iter().map(|v| json!({"class": v.class, "detail": v.detail, "case": v.case})).collect::<Vec<_>>(),
-        });
-        println!("HALF-REPORT {}", out);
+        println!("HALF-REPORT {}", stats_to_json(&st));
         std::process::exit(0);
     }
     let mut rep = Report::new(
         ctx,
         "exploration",
-        "the complete matrix {blocking, async} x {native-tls, rustls} (two builds) x ignore flag {unset, false, true} x extra root {none, correct CA as PEM, as DER, unrelated CA} x server certificate {valid for localhost, wrong host name, expired, self-signed, issued by an unknown CA} = 240 configurations (thorough: x {TLS 1.2, TLS 1.3} forced on the peer = 480), each a real handshake of a real Get-Printer-Attributes request against the loopback TLS peer (openssl acceptor, certificates minted at run time). Oracle: accepted <=> ignore = true or (root in {PEM, DER} and certificate valid); on rejection send() = Err AND zero application bytes reached the peer. distinct = configuration",
+        "the complete matrix {blocking, async} x {native-tls, rustls} (two builds) x ignore flag {unset, false, true} x extra root {none, correct CA as PEM, as DER, unrelated CA} x server certificate {valid for localhost, wrong host name, expired, self-signed, issued by an unknown CA} = 240 configurations (thorough: x {TLS 1.2, TLS 1.3} forced on the peer = 480), each a real handshake of a real Get-Printer-Attributes request against the loopback TLS peer (openssl acceptor, certificates minted at run time). plus, per backend, every ORDERED pair of an 8-configuration subset per client (128 pairs), each pair run sequentially in a fresh process (history: process-wide state left by the first client must not change the second's verdict). Oracle: accepted <=> ignore = true or (root in {PEM, DER} and certificate valid); on rejection send() = Err AND zero application bytes reached the peer. distinct = configuration",
     );
     rep.assume("localhost resolves to 127.0.0.1; the test CA is never in the system trust store");
     if let Some(p) = &ctx.replay {
@@ -284,25 +377,7 @@ pub fn run(ctx: &Ctx) -> ! {
         std::process::exit(2)
     });
     let j: Json = serde_json::from_str(&line["HALF-REPORT ".len()..]).unwrap();
-    let mut st = Stats::new();
-    st.evaluations = j["evaluations"].as_u64().unwrap_or(0);
-    st.traces = j["traces"].as_u64().unwrap_or(0);
-    st.transitions = j["transitions"].as_u64().unwrap_or(0);
-    st.states_extra = j["states"].as_u64().unwrap_or(0);
-    st.nontrivial_extra = j["states"].as_u64().unwrap_or(0);
-    if let Some(o) = j["outcomes"].as_object() {
-        for (k, v) in o {
-            st.outcomes.insert(k.clone(), v.as_u64().unwrap_or(0));
-        }
-    }
-    if let Some(s) = j["samples"].as_array() {
-        st.samples = s.clone();
-    }
-    if let Some(vs) = j["violations"].as_array() {
-        for v in vs {
-            st.violate(v["class"].as_str().unwrap_or(""), v["detail"].as_str().unwrap_or(""), v["case"].clone());
-        }
-    }
+    let st = stats_from_json(&j);
     rep.section(if crate::FLAVOUR == "rustls" { "native-tls" } else { "rustls" }, st);
     rep.finish()
 }
